@@ -462,6 +462,37 @@ pub fn gen_page_doc(ctx: &Ctx) -> PageDoc {
             let mut d: MDict = Vec::new();
             let body = if ctx.chance(W, 1, 4, "content-flate") {
                 use std::io::Write;
+                let mut body = body;
+                // a third of them with a PNG predictor (legal for any Flate stream): the content is
+                // padded with white-space to whole rows, which changes no operation
+                if ctx.chance(W, 1, 3, "content-predictor") {
+                    ctx.count("content-stream-with-predictor");
+                    let cols = 1 + ctx.draw(W, 12, "content-columns") as usize;
+                    while body.len() % cols != 0 {
+                        body.push(b' ');
+                    }
+                    let ft = ctx.draw(W, 3, "content-row-filter") as u8; // None, Sub, Up
+                    let mut out = Vec::with_capacity(body.len() + body.len() / cols + 1);
+                    let zero = vec![0u8; cols];
+                    let mut prev: &[u8] = &zero;
+                    for row in body.chunks(cols) {
+                        out.push(ft);
+                        for i in 0..row.len() {
+                            let pred = match ft {
+                                0 => 0,
+                                1 => if i > 0 { row[i - 1] } else { 0 },
+                                _ => prev[i],
+                            };
+                            out.push(row[i].wrapping_sub(pred));
+                        }
+                        prev = row;
+                    }
+                    body = out;
+                    d.push((
+                        nm("DecodeParms"),
+                        MObj::Dict(vec![(nm("Predictor"), MObj::Int(10 + ft as i64)), (nm("Columns"), MObj::Int(cols as i64))]),
+                    ));
+                }
                 let mut e = flate2::write::ZlibEncoder::new(Vec::new(), flate2::Compression::default());
                 e.write_all(&body).unwrap();
                 d.push((nm("Filter"), name("FlateDecode")));
